@@ -47,7 +47,23 @@ pub fn run(ctx: &Ctx, reg: &Registry, rep: &mut Report) {
     match ctx.prop.as_str() {
         "C01" | "C02" | "C03" | "C05" | "C06" | "C07" | "C08" | "C09" | "C10" | "C13" | "C14" | "C17" => {
             let (exh, samples) = budget(&ctx.prop, ctx.quick());
-            let plans = sweep::plan_for(reg, &ctx.prop, exh, samples);
+            let mut plans = sweep::plan_for(reg, &ctx.prop, exh, samples);
+            // quick tier: unary ops over a 32-bit space that have a fast oracle also get a
+            // seed-rotated strided pass (1/16 of the space, 1/4 for sqrt): sparse defects that no
+            // generator class aims at (a few dozen inputs out of 2^32) are met with high
+            // probability on every run, not only in the thorough tier
+            if ctx.quick() {
+                let stride = if ctx.prop == "C06" { 4 } else { 16 };
+                for (i, op) in reg.for_prop(&ctx.prop) {
+                    if op.arity() == 1 && op.fast.is_some() && !op.stub && (op.space_log2() - 32.0).abs() < 1e-9 {
+                        plans.push(Plan {
+                            op: i,
+                            mode: Mode::Strided { stride, offset: crate::rng::mix64(ctx.seed ^ 0x57_1de) },
+                            name: format!("{} (strided 1/{})", op.name, stride),
+                        });
+                    }
+                }
+            }
             run_plans(ctx, reg, plans, rep);
         }
         "C04" => quire::run_c04(ctx, rep),
